@@ -449,6 +449,11 @@ def run_save_results(run, sampler, stem, file_ext, extension):
     """real FlowSampler.save_results -> (canonical ext answer, path written or None, exception)"""
     from nessai.flowsampler import FlowSampler
     d = run.path("res")
+    # every other output directory has dots in its NAME (run_v1.2, ./outdir): the extension is a property of the file
+    # name, not of the path (seeded change C19-d: "a dot anywhere in the path")
+    run._dotted = not getattr(run, "_dotted", False)
+    if run._dotted:
+        d = d + "_v1.2.d"
     os.makedirs(d)
     filename = os.path.join(d, stem + ("." + file_ext if file_ext else ""))
     try:
@@ -592,7 +597,7 @@ def make_model(truth):
 def real_run(run, ins, seed, ext, truth):
     """a tiny real run -> the FlowSampler (results in memory) and the file it saved itself"""
     from nessai.flowsampler import FlowSampler
-    out = run.path("real")
+    out = run.path("real") + ("_v1.2" if seed % 2 else "")       # a dot in the name of the output directory is legal
     kw = dict(nlive=50, plot=False, seed=seed, flow_config=dict(n_blocks=2, n_neurons=4),
               training_config=dict(max_epochs=5))
     if ins:
